@@ -139,6 +139,12 @@ def r_polarity(repo, rep, R='R17.1'):
                 okids = g == ('call', N('enumerate'), (N('categories'),), ()) and idmap[1][0] == 'unpack' and idmap[1][2] == 1 and idmap[2][0] == 'unpack' and idmap[2][2] == 0
             rep.check(bool(okids), 'R17.2', wf, 'filters:ids', 'category ids are positions in the `categories` list (enumerate from 0)',
                       'mask ids are computed as %s' % (show(ids)[:100] if ids else None))
+            # ... of every listed category: a filter on the ids (`if id_` drops position 0, the first category of the inventory) leaves a
+            # listed category flattened
+            filt = [f_ for g_ in (ids[2] if ids is not None and ids[0] == 'listcomp' else []) for f_ in g_[1]]
+            rep.check(not filt, 'R17.2', wf, 'filters:ids-all', 'the ids of all listed categories go into the mask (no filter on them)',
+                      'the ids of the listed categories are filtered by `%s` before the mask is built: a listed category whose id does not pass (position 0 is falsy) '
+                      'is flattened like an unlisted one' % (show(filt[0])[:80] if filt else ''))
             ln_t = dc[2][2][1] if len(dc[2][2]) > 1 else None
             rep.check(ln_t is not None and 'shape' in show(ln_t) and show(ln_t).endswith('[1]'), 'R17.2', wf, 'filters:mask-length',
                       'the mask has one entry per tag column', 'mask length is %s' % (show(ln_t) if ln_t else None))
